@@ -14,7 +14,7 @@ TOKENS = [
     ("%E9", "non-utf8"), ("%C3", "non-utf8"), ("%C3%28", "non-utf8"), ("%FF", "non-utf8"), ("%ED%A0%80", "non-utf8-surrogate"), ("%C0%AF", "non-utf8-overlong"),
     ("%E2%82", "non-utf8-truncated"), ("%F0%9F%98", "non-utf8-truncated"), ("%F0%9F", "non-utf8-truncated"), ("%e2%82", "non-utf8-truncated"),
     ("%00", "esc-control"), ("%0A", "esc-control"), ("%1F", "esc-control"), ("%7F", "esc-del"), ("%C2%80", "esc-c1"), ("%C2%9F", "esc-c1"), ("%C2%A0", "esc-nbsp"),
-    ("%2541", "nested"), ("%252F", "nested"), ("%25%34%31", "nested"), ("%2525", "nested"),
+    ("amp;", "amp-entity-tail"), ("amp%3B", "amp-entity-tail"), ("%2541", "nested"), ("%252F", "nested"), ("%25%34%31", "nested"), ("%2525", "nested"),
 ]
 CLASS_OF = {}
 for t, c in TOKENS:
